@@ -90,13 +90,57 @@ func (p *pcWorld) takeView(alignedTo int) {
 		w.logf("reader: PreConfirmedChain failed: %v", err)
 		return
 	}
+	p.checkTaken(ch, []int{alignedTo}, nil)
+}
+
+// viewSnap is what a reader saw of a view at the moment it obtained it.
+type viewSnap struct {
+	entries []*pending.PreConfirmed
+	fp      string
+}
+
+func snapView(ch *preconfirmed.ChainReader) *viewSnap {
+	e := collect(ch)
+	return &viewSnap{entries: e, fp: fingerprint(e)}
+}
+
+// checkTaken: oracle (1) on a view a reader has just obtained. heads lists, in order, every canonical
+// head that was current at some instant of the reader action that obtained the view (one value when the
+// reader ran atomically with respect to the writer); the view must be aligned to one of them. early, if
+// not nil, is the content the reader itself saw when it obtained the view, which may be earlier than
+// now (a writer action that was in progress at that moment has completed since): the view must not
+// have changed in between, and it is the early content that later inspections are compared with.
+func (p *pcWorld) checkTaken(ch preconfirmed.ChainReader, heads []int, early *viewSnap) {
+	w := p.w
+	c := w.c
+	alignedTo := heads[len(heads)-1]
 	c.Evals++
 	entries := collect(&ch)
+	fpNow := ""
+	if early != nil {
+		if len(early.entries) != len(entries) {
+			c.Fail("view_mutated", "length", "a view iterated %d blocks when the reader obtained it and %d when its reader action ended", len(early.entries), len(entries))
+		}
+		for i := range entries {
+			if entries[i] != early.entries[i] {
+				c.Fail("view_mutated", "entry_replaced", "entry %d of a view is a different object at the end of the reader action that obtained it", i)
+			}
+		}
+		if fpNow = fingerprint(entries); fpNow != early.fp {
+			c.Fail("view_mutated", mutatedWhat(early.fp, fpNow), "a view changed between the moment the reader obtained it and the end of its reader action (a writer action was in progress): %s", firstDiff(early.fp, fpNow))
+		}
+	} else {
+		fpNow = fingerprint(entries)
+	}
 	if len(entries) != ch.Length() {
-		c.Fail("view_gap", "length", "view reports length %d but iterates %d entries", ch.Length(), len(entries))
+		c.Fail("view_gap", "length", "view reports length %d but iterates %d entries (canonical heads during the reader action: %v)", ch.Length(), len(entries), heads)
 	}
 	if len(entries) == 0 {
-		w.logf("reader: empty view (head %d)", alignedTo)
+		if len(heads) > 1 {
+			w.logf("reader: empty view (heads %v)", heads)
+		} else {
+			w.logf("reader: empty view (head %d)", alignedTo)
+		}
 		return
 	}
 	for i, e := range entries {
@@ -107,8 +151,20 @@ func (p *pcWorld) takeView(alignedTo int) {
 			c.Fail("view_gap", "non_contiguous", "view is not gap-free: entry %d is block %d after block %d", i, e.Block.Number, entries[i-1].Block.Number)
 		}
 	}
-	if got, want := entries[0].Block.Number, uint64(alignedTo+1); got != want {
-		c.Fail("view_alignment", "oldest_not_head_plus_one", "view taken at canonical head %d starts at block %d (expected %d), length %d", alignedTo, got, want, len(entries))
+	aligned := false
+	for i := len(heads) - 1; i >= 0 && !aligned; i-- {
+		if entries[0].Block.Number == uint64(heads[i]+1) {
+			aligned, alignedTo = true, heads[i]
+		}
+	}
+	if !aligned {
+		if len(heads) > 1 {
+			c.Fail("view_alignment", "oldest_not_head_plus_one", "view starts at block %d, length %d, but the canonical heads that were current during the reader action are %v: it is not one above any of them", entries[0].Block.Number, len(entries), heads)
+		}
+		c.Fail("view_alignment", "oldest_not_head_plus_one", "view taken at canonical head %d starts at block %d (expected %d), length %d", alignedTo, entries[0].Block.Number, alignedTo+1, len(entries))
+	}
+	if alignedTo != heads[len(heads)-1] {
+		c.Probe("view_aligned_to_a_head_that_moved_during_the_action")
 	}
 	var newest []*pending.PreConfirmed
 	for e := range ch.NewestFirst() {
@@ -123,7 +179,7 @@ func (p *pcWorld) takeView(alignedTo int) {
 		c.Fail("view_gap", "head", "Head() is not the newest entry of the view")
 	}
 	p.nViews++
-	v := &viewRec{id: p.nViews, chain: ch, step: w.step, headNum: alignedTo, acq: append([]*chaingen.Block(nil), p.canon()...), entries: entries, fp: fingerprint(entries)}
+	v := &viewRec{id: p.nViews, chain: ch, step: w.step, headNum: alignedTo, acq: append([]*chaingen.Block(nil), p.canon()...), entries: entries, fp: fpNow}
 	p.views = append(p.views, v)
 	if len(p.views) > 5 {
 		p.views = p.views[1:]
@@ -614,7 +670,16 @@ func (p *pcWorld) finish(class string) {
 // C20 is one simulated run: either the synchronizer-driven class (real Poller inside the real
 // Synchronizer) or the direct-drive class (the real ChainStorage driven through its API).
 func C20(c *sim.Ctx) {
-	if c.T.Draw("class.direct", 3) == 2 {
+	direct := c.T.Draw("class.direct", 3) == 2
+	// development/self-test aid (never set by the check driver's props): JSIM_KNOB_c20_class pins the
+	// class without changing the tape layout
+	switch c.Knobs["c20_class"] {
+	case "direct", "coop":
+		direct = true
+	case "sync":
+		direct = false
+	}
+	if direct {
 		c20Direct(c)
 		return
 	}
